@@ -22,6 +22,9 @@ LOCALE_SETS = [
     ("sr-Latn-RS", ["sr-Latn-RS", "sr-Cyrl", "sr"]),
     ("en", ["en", "eng", "en-Latn-US-valencia"]),
     ("de", ["de"]),
+    ("en", ["fr", "de"]),                    # default not listed: must still come first
+    ("it", ["fr", "es", "pt"]),
+    ("en", ["pa-Arab", "pa", "en", "uz", "uz-Arab", "ar", "he", "sr-Cyrl", "sr-Latn"]),   # same language, scripts of opposite direction
 ]
 
 
@@ -42,6 +45,20 @@ def chain(pairs, default):
     return t
 
 
+_DIR_CACHE = {}
+
+
+def direction_oracle(names):
+    import subprocess
+    missing = [n for n in names if n not in _DIR_CACHE]
+    if missing:
+        p = subprocess.run([hostrun.HOST_BIN, "direction"], input="\n".join(missing) + "\n", capture_output=True, text=True, env=hostrun.ENV)
+        for l in p.stdout.splitlines():
+            a, b = l.split("\t")
+            _DIR_CACHE[a] = b
+    return _DIR_CACHE
+
+
 def run(tier, seed):
     t0 = time.time()
     prop = "C13"
@@ -52,7 +69,7 @@ def run(tier, seed):
         return 2
     cases = []
     for i, (default, locales) in enumerate(LOCALE_SETS):
-        files = {l: {"k": S("text " + l)} for l in locales}
+        files = {l: {"k": S("text " + l)} for l in set(locales) | {default}}
         cases.append(engine_g.Case(Project(default, locales, files), "c13_locales/%d" % i))
     engine_g.prepare(cases, "C13_" + tier)
     results = hostrun.batch([c.dir for c in cases])
@@ -87,15 +104,27 @@ def run(tier, seed):
         if "err" in as_str or "err" in from_str:
             inconclusive.append((c.tag, as_str.get("err") or from_str.get("err")))
             continue
+        for t_ in (le.get("direction_term", {}), le.get("as_icu_locale_term", {})):
+            if "err" in t_:
+                inconclusive.append((c.tag, t_["err"]))
         # reference
         ref_as_str = chain([(C_loc([i]), T_str(name_of[i])) for i in idents[:-1]], T_str(name_of[idents[-1]]))
         trimmed = {"t": "app", "f": "trim", "a": [{"a": "term", "v": {"t": "var", "n": "s"}}]}
         ref_from_str = chain([({"c": "streq", "x": trimmed, "v": name_of[i]}, T_str("ok:" + i)) for i in idents], T_str("err"))
+        # text direction agrees with CLDR; ICU locale is the one of the configured name
+        dirs = direction_oracle(order)
+        dir_term = le.get("direction_term", {"err": "no direction"})
+        icu_term = le.get("as_icu_locale_term", {"err": "no as_icu_locale"})
+        ref_dir = chain([(C_loc([i]), T_str("leptos_i18n::Direction::" + dirs[name_of[i]])) for i in idents[:-1]],
+                        T_str("leptos_i18n::Direction::" + dirs[name_of[idents[-1]]]))
+        ref_icu = chain([(C_loc([i]), T_str('locale!("%s")' % name_of[i])) for i in idents[:-1]], T_str('locale!("%s")' % name_of[idents[-1]]))
         roundtrip = subst_var(from_str, "s", as_str)
         ref_roundtrip = chain([(C_loc([i]), T_str("ok:" + i)) for i in idents[:-1]], T_str("ok:" + idents[-1]))
         qs = [("as_str == configured name", as_str, ref_as_str),
               ("from_str(s) == Ok(l) iff trim(s) == name(l), for every string s", from_str, ref_from_str),
-              ("from_str(as_str(l)) == Ok(l)", roundtrip, ref_roundtrip)]
+              ("from_str(as_str(l)) == Ok(l)", roundtrip, ref_roundtrip),
+              ("direction(l) == CLDR direction of the configured name", dir_term, ref_dir),
+              ("as_icu_locale(l) == locale!(configured name)", icu_term, ref_icu)]
         for label, a, b in qs:
             try:
                 ctx = smt.ctx_for(h["locales"], a, b)
@@ -138,12 +167,13 @@ def run(tier, seed):
         "queries": queries, "queries_unsat": unsat, "vacuity_twins": twins, "vacuity_twins_sat": twins_sat,
         "solver": "z3 %s strings + regular expressions" % __import__("z3").get_version_string(), "solver_s": round(solver_s, 3),
         "inconclusive": [list(x) for x in inconclusive], "inconclusive_count": len(inconclusive),
-        "functions_encoded": ["generated Locale::as_str", "generated <Locale as FromStr>::from_str", "generated Locale::get_all (evaluated, compared structurally)"],
+        "functions_encoded": ["generated Locale::as_str", "generated <Locale as FromStr>::from_str", "generated Locale::get_all (evaluated, compared structurally)", "generated Locale::direction", "generated Locale::as_icu_locale"],
         "bounds": "%d locale sets with regions, scripts, variants, near-duplicates, RTL languages, default not listed first; from_str decided for every string s (unbounded z3 strings), as_str/round trip for every locale." % len(cases),
     }, wall, [
         "str::trim is modelled as: s = pre.t.post with pre, post Unicode White_Space only and t not starting/ending with one",
         "interpretation: surrounding white space is trimmed before comparison, so ' fr ' parsing to fr is not reported",
-        "serde / cookie codec / ICU identifiers / text direction go through library code and ICU tables: not claimed",
+        "text direction oracle = icu_locid_transform::LocaleDirectionality asked for the configured name (same CLDR data; what is decided is that every locale gets the direction of *its own* name)",
+        "serde / cookie codec go through library code (LocaleVisitor, codee): not claimed",
     ], nviol)
     print("property=C13 tier=%s locale_sets=%d queries=%d unsat=%d twins=%d/%d inconclusive=%d solver_s=%.2f wall_s=%.1f" % (
         tier, len(cases), queries, unsat, twins_sat, twins, len(inconclusive), solver_s, wall))
